@@ -2,15 +2,18 @@
 //! Subcommands write line-oriented text files; the Python driver `check` diffs them against the
 //! output of the extracted Coq models (`ocaml/modelrun`).  One module per case kind; each exports
 //! `cli(args) -> bool`.
+mod attr;
+mod dbdump;
 mod domops;
 mod rng;
 mod sched;
 mod util;
+mod val;
 
 fn main() {
     std::panic::set_hook(Box::new(|_| {}));
     let args: Vec<String> = std::env::args().collect();
-    let handled = domops::cli(&args) || sched::cli(&args);
+    let handled = dbdump::cli(&args) || domops::cli(&args) || sched::cli(&args) || attr::cli(&args);
     if !handled {
         eprintln!("usage: rbxverif <kind>-<gen|run> ...");
         std::process::exit(2);
